@@ -110,8 +110,16 @@ func (e *engine) getWorld(seed int64) (*world, error) {
 	defer func() { e.c.ObserveMax("max:world_total_ms", time.Since(t0).Milliseconds()) }()
 	rng := rand.New(rand.NewSource(seed ^ 0x5eed))
 	if err := w.prelude(rng); err != nil {
-		w.dirty = true
+		// the base history is made of the same operations as every scenario: if one of them
+		// never completes, look at this teamserver's locks and goroutines before giving up
+		var o outcome
+		syncFailure(&o, err, w)
 		w.close()
+		if len(o.findings) > 0 {
+			f := o.findings[0]
+			f.What = "while building the base history: " + f.What
+			return nil, &lossErr{f}
+		}
 		return nil, err
 	}
 	e.c.Observe("worlds", 1)
@@ -164,11 +172,15 @@ func (w *world) prelude(rng *rand.Rand) error {
 		},
 		func() error { return w.opListenerRemove(l2, 1) },
 		func() error { return w.opListenerError(l1) },
+		func() error { return w.opListenerError(l2) }, // l2 was removed: no announcement of it is in the log
 		func() error { return w.opChat(0, false) },
 		func() error { return w.opChat(1, true) },
 		func() error { return w.opOutput(ags[0], 2) },
 		func() error { return w.opVisitor() },
 		func() error { return w.opChat(2, false) },
+		func() error { return w.opDatedEvent("31/12/2020 23:59:59") },
+		func() error { return w.opChat(1, false) },
+		func() error { return w.opDatedEvent("01/01/2031 00:00:01") },
 	}
 	for _, f := range steps {
 		if err := f(); err != nil {
@@ -195,6 +207,15 @@ func syncFailure(o *outcome, err error, w *world) {
 	var le *lossErr
 	if errors.As(err, &le) {
 		o.add(le.f)
+		return
+	}
+	// the retained log's mutex guards a few memory operations only (no I/O inside): if it cannot
+	// be taken for three seconds on end it was left locked
+	if observe.TryLocked(&w.ts.EventsMutex, 3*time.Second) {
+		o.wedged = true
+		o.add(finding{Sig: "wedge:event-log-mutex-left-locked",
+			What: "recording and replaying events never complete: the mutex of the retained event log stays locked although nothing is done under it any more (" + err.Error() + ")",
+			Det:  map[string]any{"busy": busyHavoc(allStacks(), 4)}})
 		return
 	}
 	d := analyseDump(w.ts)
